@@ -232,10 +232,20 @@ package jparse
 // node.go: nud / led functions. Each must satisfy the function-type contract
 // (parser invariant kept, measure not increased, typed error or non-nil node).
 
+// C11: a string literal denotes the unescaped token text, a number literal the double strconv.ParseFloat reads from
+// the token text (the nearest double); a malformed escape or a number outside the double range is a compile error.
 //@ func parseString
 //@   implements functype:nud
+//@   props C08 C11
+//@   ensures [C11:string-is-unescaped-text] r1 == nil ==> (ret("unescape#0", 1) && typeis(r0, "*StringNode") && streq(dyn(r0, "*StringNode").Value, ret("unescape#0", 0)))
+//@   ensures [C11:bad-escape-is-error] !ret("unescape#0", 1) ==> (r1 != nil && r0 == nil)
+//@   atcall[C11:whole-token-text] unescape#0 requires streq(callee_src, t.Value)
 //@ func parseNumber
 //@   implements functype:nud
+//@   props C08 C11
+//@   ensures [C11:nearest-double] r1 == nil ==> (ret("strconv.ParseFloat#0", 1) == nil && typeis(r0, "*NumberNode") && same(dyn(r0, "*NumberNode").Value, ret("strconv.ParseFloat#0", 0)))
+//@   ensures [C11:out-of-range-is-error] ret("strconv.ParseFloat#0", 1) != nil ==> (r1 != nil && r0 == nil)
+//@   atcall[C11:whole-token-text] strconv.ParseFloat#0 requires streq(callee_arg0, t.Value) && callee_arg1 == 64
 //@ func parseBoolean
 //@   implements functype:nud
 //@ func parseNull
@@ -357,17 +367,24 @@ package jparse
 //@   loop 0 invariant len(s) <= len(old(s)) && same(s, old(s)[len(old(s))-len(s):]) && fresh(params) && frame(params)
 //@   loop 0 decreases len(s)
 
+// parseRune: the code point strconv.ParseInt reads from the four hex digits; -1 (no code point) when they are not hex
 //@ func parseRune
+//@   props C08 C11
 //@   ensures -2147483648 <= result && result <= 2147483647
+//@   ensures [C11:hex-value] ret("strconv.ParseInt#0", 1) == nil ==> result == ret("strconv.ParseInt#0", 0)
+//@   ensures [C11:not-hex-is-no-code-point] ret("strconv.ParseInt#0", 1) != nil ==> result == -1
+//@   atcall[C11:base-16] strconv.ParseInt#0 requires streq(callee_arg0, hex) && callee_arg1 == 16 && callee_arg2 == 32
 //@   assigns nothing
 
 //@ func decodeRunes
+//@   props C08 C11
 //@   requires 0 <= n && n <= 64
 //@   ensures 0 <= r1 && r1 <= len(s) && n <= len(r0) && len(r0) <= 4*n
 //@   assigns nothing
 //@   loop 0 invariant 0 <= pos && pos <= len(s) && frame(runes)
 
 //@ func unescape
+//@   props C08 C11
 //@   decreases[unescape] len(src), 0
 //@   assigns nothing
 
@@ -437,9 +454,12 @@ package jparse
 //@ func (*PredicateNode).optimize
 //@   implements iface:Node.optimize
 //@   preserves n
+// C11: -<number literal> is the number literal with the sign flipped (so JSON's negative numbers are literals)
 //@ func (*NegationNode).optimize
 //@   implements iface:Node.optimize
+//@   props C08 C11
 //@   preserves n
+//@   ensures [C11:negative-literal] (r1 == nil && typeis(ret("iface:optimize#0", 0), "*NumberNode")) ==> (typeis(r0, "*NumberNode") && same(dyn(r0, "*NumberNode").Value, -dyn(ret("iface:optimize#0", 0), "*NumberNode").Value))
 //@ func (*RangeNode).optimize
 //@   implements iface:Node.optimize
 //@   preserves n
